@@ -1046,4 +1046,654 @@ theorem modeGroup_users (cn : Conn) (target : Str) (chum : ChanUserModes) (a : M
     · simpa using h
 end modeChan
 
+/-! ## 4. per-handler lemmas: user modes kept (handlers that touch `users`) -/
+
+theorem modesKept_of_modify {w w' : World} {n : Str} {f : User → User}
+    (h : w'.users = Map.modify n f w.users) (hf : ∀ u, (f u).modes = u.modes) : ModesKept w w' := by
+  intro m u' hu'
+  rw [h, Map.lookup_modify] at hu'
+  split at hu'
+  · cases hl : Map.lookup m w.users with
+    | none => simp [hl] at hu'
+    | some u =>
+      simp [hl] at hu'
+      exact ⟨u, rfl, by rw [← hu', hf]⟩
+  · exact ⟨u', hu', rfl⟩
+
+theorem foldl_modesKept {β : Type} (f : Ctx → β → Ctx) (h : ∀ x b, ModesKept x.w (f x b).w)
+    (l : List β) (x : Ctx) : ModesKept x.w (l.foldl f x).w := by
+  induction l generalizing x with
+  | nil => exact ModesKept.refl _
+  | cons b l ih => exact (h x b).trans (ih (f x b))
+
+theorem foldl_modesKept_w {β : Type} (f : World → β → World) (h : ∀ w b, ModesKept w (f w b))
+    (l : List β) (w : World) : ModesKept w (l.foldl f w) := by
+  induction l generalizing w with
+  | nil => exact ModesKept.refl _
+  | cons b l ih => exact (h w b).trans (ih (f w b))
+
+theorem modesKept_ite_panic {w : World} (p : Prop) [Decidable p] (A : Ctx) (s : String)
+    (h : ModesKept w A.w) : ModesKept w (if p then A else A.panic s).w := by
+  split
+  · exact h
+  · exact h.trans (ModesKept.of_users_eq rfl)
+
+theorem modesKept_modifyW_users (x : Ctx) (n : Str) (f : User → User)
+    (hf : ∀ u, (f u).modes = u.modes) :
+    ModesKept x.w (x.modifyW (fun w => { w with users := Map.modify n f w.users })).w :=
+  modesKept_of_modify rfl hf
+
+theorem removeUserFromChannel_modesKept (w : World) (ch n : Str) :
+    ModesKept w (w.removeUserFromChannel ch n) := by
+  have h1 : ∀ w1 : World, w1.users = w.users →
+      ModesKept w { w1 with users := Map.modify n (fun u => { u with channels := KSet.erase ch u.channels }) w1.users } := by
+    intro w1 e
+    exact modesKept_of_modify (n := n) (f := fun u => { u with channels := KSet.erase ch u.channels })
+      (by simp only [e]) (fun _ => rfl)
+  unfold World.removeUserFromChannel
+  apply h1
+  split
+  · split
+    · rfl
+    · split <;> rfl
+  · rfl
+
+section modesKept
+variable (cfg : Cfg) (c : Nat) (x : Ctx)
+
+theorem processAway_modesKept (t : Option Str) : ModesKept x.w (processAway cfg c t x).w := by
+  unfold processAway
+  simp only
+  split
+  · exact ModesKept.refl _
+  · split
+    · exact ModesKept.refl _
+    · split <;> exact modesKept_modifyW_users x _ _ (fun _ => rfl)
+
+theorem processInvite_modesKept (n ch : Str) (msg : Message) :
+    ModesKept x.w (processInvite cfg c n ch msg x).w := by
+  unfold processInvite
+  simp only
+  repeat' split
+  all_goals first
+    | exact ModesKept.refl _
+    | (refine (modesKept_modifyW_users x n (fun u => { u with invitedTo := KSet.insert ch u.invitedTo })
+        (fun _ => rfl)).trans (ModesKept.of_users_eq ?_); simp)
+
+theorem processPart_modesKept (chs : List Str) (r : Option Str) :
+    ModesKept x.w (processPart cfg c chs r x).w := by
+  unfold processPart
+  simp only
+  split
+  · exact ModesKept.refl _
+  · rename_i nick _
+    apply modesKept_ite_panic
+    refine foldl_modesKept _ ?_ chs x
+    intro y b
+    split
+    · split
+      · refine ModesKept.trans (ModesKept.of_users_eq ?_) (removeUserFromChannel_modesKept _ b nick)
+        apply foldl_users; intro z n; simp
+      · exact ModesKept.refl _
+    · exact ModesKept.refl _
+
+theorem processKick_modesKept (ch : Str) (us : List Str) (cm : Option Str) :
+    ModesKept x.w (processKick cfg c ch us cm x).w := by
+  unfold processKick
+  simp only
+  split
+  · exact ModesKept.refl _
+  · split
+    · split
+      · split
+        · generalize kickSelect _ _ _ _ _ _ = ks
+          obtain ⟨kicked, errs⟩ := ks
+          simp only
+          have h1 : ModesKept x.w ((List.foldl (fun x e => x.reply cfg e) x errs).modifyW fun w =>
+              List.foldl (fun w ku => w.removeUserFromChannel ch ku) w kicked).w := by
+            simp only [Ctx.modifyW_w]
+            refine ModesKept.trans (ModesKept.of_users_eq ?_) (foldl_modesKept_w _ ?_ _ _)
+            · apply foldl_users; intro y b; rfl
+            · intro w b; exact removeUserFromChannel_modesKept w ch b
+          refine h1.trans (ModesKept.of_users_eq ?_)
+          apply foldl_users; intro y b
+          simp only [Ctx.sendDisplay_users]
+          apply foldl_users; intro z n; simp
+        · exact ModesKept.refl _
+      · exact ModesKept.refl _
+    · exact ModesKept.refl _
+end modesKept
+
+set_option linter.unusedSimpArgs false
+section join
+variable (cfg : Cfg) (c : Nat)
+
+theorem joinApply_modesKept (nick : Str) (ds : List (Bool × Bool)) (chs : List Str) (w : World) :
+    ModesKept w (joinApply nick ds chs w) := by
+  induction ds generalizing chs w with
+  | nil => unfold joinApply; exact ModesKept.refl _
+  | cons d ds ih =>
+    obtain ⟨join, create⟩ := d
+    cases chs with
+    | nil => unfold joinApply; exact ModesKept.refl _
+    | cons chn chs =>
+      unfold joinApply
+      refine ModesKept.trans ?_ (ih chs _)
+      simp only
+      split
+      · have h0 : ModesKept w { w with users := Map.modify nick (fun u =>
+            { u with channels := KSet.insert chn u.channels, invitedTo := KSet.erase chn u.invitedTo }) w.users } :=
+          modesKept_of_modify (n := nick) (f := fun u =>
+            { u with channels := KSet.insert chn u.channels, invitedTo := KSet.erase chn u.invitedTo })
+            rfl (fun _ => rfl)
+        refine h0.trans (ModesKept.of_users_eq ?_)
+        split
+        · rfl
+        · split <;> rfl
+      · exact ModesKept.refl _
+
+theorem joinAnnounce_users (nick : Str) (ds : List (Bool × Bool)) (chs : List Str) (x : Ctx) :
+    (joinAnnounce cfg c nick ds chs x).w.users = x.w.users := by
+  induction ds generalizing chs x with
+  | nil => unfold joinAnnounce; rfl
+  | cons d ds ih =>
+    obtain ⟨join, create⟩ := d
+    cases chs with
+    | nil => unfold joinAnnounce; rfl
+    | cons chn chs =>
+      unfold joinAnnounce
+      rw [ih]
+      simp only
+      split
+      · split
+        · rfl
+        · refine (foldl_users _ ?_ _ _).trans ?_
+          · intro y n; simp only [ite_w_users, Ctx.sendDisplay_users, ite_self]
+          · simp only [sendNamesFromChannel_users]
+            split <;> rfl
+      · rfl
+
+theorem processJoin_modesKept (chs : List Str) (keys : Option (List Str)) (x : Ctx) :
+    ModesKept x.w (processJoin cfg c chs keys x).w := by
+  unfold processJoin
+  simp only
+  split
+  · exact ModesKept.refl _
+  · split
+    · exact ModesKept.refl _
+    · generalize joinDecide _ _ _ _ _ _ _ _ = jd
+      obtain ⟨ds, errs, fin⟩ := jd
+      simp only
+      refine ModesKept.trans ?_ (ModesKept.of_users_eq (joinAnnounce_users cfg c _ ds chs _))
+      simp only [Ctx.modifyW_w]
+      refine ModesKept.trans (ModesKept.of_users_eq ?_) (joinApply_modesKept _ ds chs _)
+      apply foldl_users; intro y b; rfl
+end join
+
+section killDie
+variable (cfg : Cfg) (c : Nat) (x : Ctx)
+
+theorem processKill_modesKept (n cm : Str) : ModesKept x.w (processKill cfg c n cm x).w := by
+  unfold processKill
+  simp only
+  split
+  · exact ModesKept.refl _
+  · split
+    · exact ModesKept.refl _
+    · split
+      · split
+        · exact fireKill_modesKept _ _ _ _
+        · exact ModesKept.refl _
+      · exact ModesKept.refl _
+
+theorem processDie_modesKept (m : Option Str) : ModesKept x.w (processDie cfg c m x).w := by
+  unfold processDie
+  simp only
+  split
+  · exact ModesKept.refl _
+  · split
+    · exact ModesKept.refl _
+    · split
+      · rename_i nick _ _ _ _ _
+        exact (killAll_modesKept nick _ _ x.w).trans (ModesKept.of_users_eq rfl)
+      · exact ModesKept.refl _
+
+theorem processSquit_modesKept (s cm : Str) : ModesKept x.w (processSquit cfg c s cm x).w := by
+  unfold processSquit
+  split
+  · exact ModesKept.refl _
+  · exact processDie_modesKept cfg c x (some cm)
+end killDie
+
+/-! ## 4. MODE, registration, NICK -/
+
+theorem processModeUser_noRise (cfg : Cfg) (c : Nat) (target : Str) (modes : List (Str × List Str))
+    (x : Ctx) : NoRise x.w (processModeUser cfg c target modes x).w := by
+  intro n
+  obtain ⟨m, hm, hus, _⟩ := processModeUser_effect cfg c target modes x
+  unfold operOf localOperOf
+  rw [hus, Map.lookup_modify]
+  by_cases ht : target = n
+  · subst ht
+    cases hl : Map.lookup target x.w.users with
+    | none => simp
+    | some u =>
+      obtain ⟨h1, h2⟩ := hm u hl
+      simp only [↓reduceIte, Option.map_some]
+      exact ⟨h1, fun h => h2 ▸ h⟩
+  · simp [ht]
+
+theorem processMode_noRise (cfg : Cfg) (c : Nat) (t : Str) (modes : List (Str × List Str)) (x : Ctx) :
+    NoRise x.w (processMode cfg c t modes x).w := by
+  unfold processMode
+  simp only
+  split
+  · exact NoRise.refl _
+  · split
+    · split
+      · split
+        · exact NoRise.of_users_eq (processModeChannel_users ..)
+        · exact NoRise.refl _
+      · exact NoRise.refl _
+    · split
+      · exact processModeUser_noRise cfg c t modes x
+      · split <;> exact NoRise.refl _
+
+/-- what a registration attempt may do to `users`: nothing, or insert one NEW nick whose user is
+    owned by the acting connection and carries the configured default operator flags. -/
+def RegEffect (cfg : Cfg) (c : Nat) (w w' : World) : Prop :=
+  w'.users = w.users ∨
+  ∃ nick u, Map.lookup nick w.users = none ∧ w'.users = Map.insert nick u w.users ∧ u.owner = c ∧
+    u.modes.oper = cfg.defaultUserModes.oper ∧ u.modes.localOper = cfg.defaultUserModes.localOper
+
+theorem addUser_users (w : World) (nick : Str) (u : User) :
+    (w.addUser nick u).users = Map.insert nick u w.users := by
+  unfold World.addUser
+  simp only
+  have h : ∀ w1 : World, w1.users = w.users →
+      (if (Map.insert nick u w1.users).length > w1.maxUsers then
+        { w1 with users := Map.insert nick u w1.users, maxUsers := (Map.insert nick u w1.users).length }
+       else { w1 with users := Map.insert nick u w1.users }).users = Map.insert nick u w.users := by
+    intro w1 e; split <;> simp [e]
+  apply h
+  split <;> split <;> split <;> rfl
+
+@[simp] theorem welcomeBurst_users (cfg : Cfg) (cn : Conn) (um : Str) (x : Ctx) :
+    (welcomeBurst cfg cn um x).w.users = x.w.users := by
+  unfold welcomeBurst
+  simp
+
+theorem authenticate_regEffect (cfg : Cfg) (c : Nat) (x : Ctx) :
+    RegEffect cfg c x.w (authenticate cfg c x).w := by
+  unfold authenticate
+  simp only
+  split
+  · exact Or.inl rfl
+  · exact Or.inl rfl
+  · split
+    · split
+      · exact Or.inl rfl
+      · rename_i nick _
+        split
+        · rename_i hnc
+          split
+          · exact Or.inl rfl
+          · right
+            have hl : Map.lookup nick x.w.users = none := by
+              have : Map.contains nick x.w.users = false := by simpa using hnc
+              exact (Map.contains_false_iff _ _).mp this
+            refine ⟨nick, ?u, hl, ?hus, ?h1, ?h2, ?h3⟩
+            case hus =>
+              split
+              · simp only [Ctx.setConn_w, World.setConn_users, welcomeBurst_users, Ctx.modifyW_w]
+                exact addUser_users _ _ _
+              · simp only [Ctx.panic_w, World.panic_users, welcomeBurst_users, Ctx.modifyW_w, Ctx.setConn_w,
+                  World.setConn_users]
+                exact addUser_users _ _ _
+            all_goals rfl
+        · exact Or.inl rfl
+    · exact Or.inl rfl
+
+theorem RegEffect.of_setConn {cfg : Cfg} {c : Nat} {x : Ctx} {cn : Conn} {w' : World}
+    (h : RegEffect cfg c (x.setConn cn).w w') : RegEffect cfg c x.w w' := h
+
+theorem processCap_regEffect (cfg : Cfg) (c : Nat) (sub : CapCommand) (caps : Option (List Str)) (x : Ctx) :
+    RegEffect cfg c x.w (processCap cfg c sub caps x).w ∧
+    ((processCap cfg c sub caps x).w.users ≠ x.w.users → (x.conn c).authenticated = false) := by
+  unfold processCap
+  simp only
+  cases sub with
+  | LS => exact ⟨Or.inl rfl, fun h => absurd rfl h⟩
+  | LIST => exact ⟨Or.inl rfl, fun h => absurd rfl h⟩
+  | REQ =>
+    simp only
+    split
+    · split <;> exact ⟨Or.inl rfl, fun h => absurd rfl h⟩
+    · exact ⟨Or.inl rfl, fun h => absurd rfl h⟩
+  | END =>
+    simp only
+    split
+    · rename_i ha
+      refine ⟨RegEffect.of_setConn (authenticate_regEffect cfg c _), fun _ => ?_⟩
+      simpa using ha
+    · exact ⟨Or.inl rfl, fun h => absurd rfl h⟩
+
+theorem processPass_regEffect (cfg : Cfg) (c : Nat) (p : Str) (x : Ctx) :
+    RegEffect cfg c x.w (processPass cfg c p x).w ∧
+    ((processPass cfg c p x).w.users ≠ x.w.users → (x.conn c).authenticated = false) := by
+  unfold processPass
+  simp only
+  split
+  · rename_i ha
+    exact ⟨RegEffect.of_setConn (authenticate_regEffect cfg c _), fun _ => by simpa using ha⟩
+  · exact ⟨Or.inl rfl, fun h => absurd rfl h⟩
+
+theorem processUser_regEffect (cfg : Cfg) (c : Nat) (u r : Str) (x : Ctx) :
+    RegEffect cfg c x.w (processUser cfg c u r x).w ∧
+    ((processUser cfg c u r x).w.users ≠ x.w.users → (x.conn c).authenticated = false) := by
+  unfold processUser
+  simp only
+  split
+  · rename_i ha
+    exact ⟨RegEffect.of_setConn (authenticate_regEffect cfg c _), fun _ => by simpa using ha⟩
+  · exact ⟨Or.inl rfl, fun h => absurd rfl h⟩
+
+theorem ite_world_users (p : Prop) [Decidable p] (a b : World) :
+    (if p then a else b).users = if p then a.users else b.users := by
+  split <;> rfl
+
+theorem renameInChannels_users (old new : Str) (chs : List Str) (w : World) :
+    (renameInChannels old new chs w).users = w.users := by
+  unfold renameInChannels
+  induction chs generalizing w with
+  | nil => rfl
+  | cons ch chs ih =>
+    simp only [List.foldl_cons]
+    rw [ih]
+    split
+    · rfl
+    · split <;> rfl
+
+/-- what NICK may do to `users`: a registration attempt (sender not yet authenticated), nothing,
+    or the move of the sender's own entry from its old nick to the new, unused nick (only
+    `source` changes in the entry). -/
+def NickEffect (cfg : Cfg) (c : Nat) (new : Str) (x : Ctx) (w' : World) : Prop :=
+  ((x.conn c).authenticated = false ∧ RegEffect cfg c x.w w') ∨
+  w'.users = x.w.users ∨
+  ∃ old user src, (x.conn c).authenticated = true ∧ (x.conn c).nick = some old ∧
+    Map.lookup old x.w.users = some user ∧ Map.lookup new x.w.users = none ∧
+    w'.users = Map.insert new { user with source := src } (Map.erase old x.w.users)
+
+theorem processNick_effect (cfg : Cfg) (c : Nat) (new : Str) (msg : Message) (x : Ctx) :
+    NickEffect cfg c new x (processNick cfg c new msg x).w := by
+  unfold processNick
+  simp only
+  split
+  · rename_i ha
+    have ha' : (x.conn c).authenticated = false := by simpa using ha
+    split
+    · exact Or.inl ⟨ha', RegEffect.of_setConn (authenticate_regEffect cfg c _)⟩
+    · exact Or.inr (Or.inl rfl)
+  · rename_i ha
+    have ha' : (x.conn c).authenticated = true := by simpa using ha
+    split
+    · exact Or.inr (Or.inl rfl)
+    · rename_i old hold
+      split
+      · split
+        · rename_i hnc
+          have hl : Map.lookup new x.w.users = none := by
+            have : Map.contains new x.w.users = false := by simpa using hnc
+            exact (Map.contains_false_iff _ _).mp this
+          split
+          · exact Or.inr (Or.inl rfl)
+          · rename_i user hu
+            right; right
+            refine ⟨old, user, ((x.conn c).setNick new).source, ha', hold, hu, hl, ?_⟩
+            rw [sendAll_users]
+            simp only [Ctx.modifyW_w, Ctx.setConn_w]
+            simp only [ite_world_users, World.pushHistory, renameInChannels_users, World.setConn_users, ite_self]
+        · exact Or.inr (Or.inl rfl)
+      · exact Or.inr (Or.inl rfl)
+
+/-! ## 4. assembling the per-handler lemmas over `dispatch` -/
+
+/-- the commands that can add or move a `users` entry or raise an operator flag -/
+def isSpecial : Command → Bool
+  | .OPER .. | .CAP .. | .PASS .. | .NICK .. | .USER .. => true
+  | _ => false
+
+section keepsOper
+variable (cfg : Cfg) (c : Nat) (x : Ctx)
+
+theorem processAuthenticate_keeps_oper : NoRise x.w (processAuthenticate cfg c x).w := NoRise.of_users_eq (by simp)
+theorem processPing_keeps_oper (t : Str) : NoRise x.w (processPing cfg c t x).w := NoRise.of_users_eq (by simp)
+theorem processPong_keeps_oper : NoRise x.w (processPong cfg c x).w := NoRise.of_users_eq (by simp)
+theorem processQuit_keeps_oper : NoRise x.w (processQuit cfg c x).w := NoRise.of_users_eq (by simp)
+theorem processJoin_keeps_oper (chs : List Str) (k : Option (List Str)) :
+    NoRise x.w (processJoin cfg c chs k x).w := (processJoin_modesKept cfg c chs k x).noRise
+theorem processPart_keeps_oper (chs : List Str) (r : Option Str) :
+    NoRise x.w (processPart cfg c chs r x).w := (processPart_modesKept cfg c x chs r).noRise
+theorem processTopic_keeps_oper (ch : Str) (t : Option Str) (msg : Message) :
+    NoRise x.w (processTopic cfg c ch t msg x).w := NoRise.of_users_eq (by simp)
+theorem processNames_keeps_oper (chs : List Str) : NoRise x.w (processNames cfg c chs x).w :=
+  NoRise.of_users_eq (by simp)
+theorem processList_keeps_oper (chs : List Str) (s : Option Str) : NoRise x.w (processList cfg c chs s x).w :=
+  NoRise.of_users_eq (by simp)
+theorem processInvite_keeps_oper (n ch : Str) (msg : Message) :
+    NoRise x.w (processInvite cfg c n ch msg x).w := (processInvite_modesKept cfg c x n ch msg).noRise
+theorem processKick_keeps_oper (ch : Str) (us : List Str) (cm : Option Str) :
+    NoRise x.w (processKick cfg c ch us cm x).w := (processKick_modesKept cfg c x ch us cm).noRise
+theorem processMotd_keeps_oper (cl : Str) (t : Option Str) : NoRise x.w (processMotd cfg cl t x).w :=
+  NoRise.of_users_eq (by simp)
+theorem processVersion_keeps_oper (t : Option Str) : NoRise x.w (processVersion cfg c t x).w :=
+  NoRise.of_users_eq (by simp)
+theorem processAdmin_keeps_oper (t : Option Str) : NoRise x.w (processAdmin cfg c t x).w :=
+  NoRise.of_users_eq (by simp)
+theorem unsupported_keeps_oper (cl : Str) (s : String) : NoRise x.w (unsupported cfg cl s x).w :=
+  NoRise.of_users_eq (by simp)
+theorem processLusers_keeps_oper (cl : Str) : NoRise x.w (processLusers cfg cl x).w :=
+  NoRise.of_users_eq (by simp)
+theorem processTime_keeps_oper (t : Option Str) : NoRise x.w (processTime cfg c t x).w :=
+  NoRise.of_users_eq (by simp)
+theorem processStats_keeps_oper (q : Char) (s : Option Str) : NoRise x.w (processStats cfg c q s x).w :=
+  NoRise.of_users_eq (by simp)
+theorem processLinks_keeps_oper (r m : Option Str) : NoRise x.w (processLinks cfg c r m x).w :=
+  NoRise.of_users_eq (by simp)
+theorem processHelp_keeps_oper (s : Option Str) : NoRise x.w (processHelp cfg c s x).w :=
+  NoRise.of_users_eq (by simp)
+theorem processInfo_keeps_oper : NoRise x.w (processInfo cfg c x).w := NoRise.of_users_eq (by simp)
+theorem processMode_keeps_oper (t : Str) (ms : List (Str × List Str)) :
+    NoRise x.w (processMode cfg c t ms x).w := processMode_noRise cfg c t ms x
+theorem processPrivmsgNotice_keeps_oper (ts : List Str) (t : Str) (notice : Bool) :
+    NoRise x.w (processPrivmsgNotice cfg c ts t notice x).w := NoRise.of_users_eq (by simp)
+theorem processWho_keeps_oper (m : Str) : NoRise x.w (processWho cfg c m x).w := NoRise.of_users_eq (by simp)
+theorem processWhois_keeps_oper (t : Option Str) (ns : List Str) : NoRise x.w (processWhois cfg c t ns x).w :=
+  NoRise.of_users_eq (by simp)
+theorem processWhowas_keeps_oper (n : Str) (cnt : Option Nat) (s : Option Str) :
+    NoRise x.w (processWhowas cfg c n cnt s x).w := NoRise.of_users_eq (by simp)
+theorem processKill_keeps_oper (n cm : Str) : NoRise x.w (processKill cfg c n cm x).w :=
+  (processKill_modesKept cfg c x n cm).noRise
+theorem processSquit_keeps_oper (s cm : Str) : NoRise x.w (processSquit cfg c s cm x).w :=
+  (processSquit_modesKept cfg c x s cm).noRise
+theorem processAway_keeps_oper (t : Option Str) : NoRise x.w (processAway cfg c t x).w :=
+  (processAway_modesKept cfg c x t).noRise
+theorem processUserhost_keeps_oper (ns : List Str) : NoRise x.w (processUserhost cfg c ns x).w :=
+  NoRise.of_users_eq (by simp)
+theorem processWallops_keeps_oper (msg : Message) : NoRise x.w (processWallops cfg c msg x).w :=
+  NoRise.of_users_eq (by simp)
+theorem processIson_keeps_oper (ns : List Str) : NoRise x.w (processIson cfg c ns x).w :=
+  NoRise.of_users_eq (by simp)
+theorem processDie_keeps_oper (m : Option Str) : NoRise x.w (processDie cfg c m x).w :=
+  (processDie_modesKept cfg c x m).noRise
+
+/-- all 36 commands other than OPER / CAP / PASS / NICK / USER: no operator flag rises -/
+theorem dispatch_keeps_oper (msg : Message) (cmd : Command) (h : isSpecial cmd = false) :
+    NoRise x.w (dispatch cfg c msg cmd x).w := by
+  cases cmd <;> simp only [isSpecial, reduceCtorEq] at h <;> unfold dispatch <;> simp only
+  case AUTHENTICATE => apply processAuthenticate_keeps_oper
+  case PING => apply processPing_keeps_oper
+  case PONG => apply processPong_keeps_oper
+  case QUIT => apply processQuit_keeps_oper
+  case JOIN => apply processJoin_keeps_oper
+  case PART => apply processPart_keeps_oper
+  case TOPIC => apply processTopic_keeps_oper
+  case NAMES => apply processNames_keeps_oper
+  case LIST => apply processList_keeps_oper
+  case INVITE => apply processInvite_keeps_oper
+  case KICK => apply processKick_keeps_oper
+  case MOTD => apply processMotd_keeps_oper
+  case VERSION => apply processVersion_keeps_oper
+  case ADMIN => apply processAdmin_keeps_oper
+  case CONNECT => apply unsupported_keeps_oper
+  case LUSERS => apply processLusers_keeps_oper
+  case TIME => apply processTime_keeps_oper
+  case STATS => apply processStats_keeps_oper
+  case LINKS => apply processLinks_keeps_oper
+  case HELP => apply processHelp_keeps_oper
+  case INFO => apply processInfo_keeps_oper
+  case MODE => apply processMode_keeps_oper
+  case PRIVMSG => apply processPrivmsgNotice_keeps_oper
+  case NOTICE => apply processPrivmsgNotice_keeps_oper
+  case WHO => apply processWho_keeps_oper
+  case WHOIS => apply processWhois_keeps_oper
+  case WHOWAS => apply processWhowas_keeps_oper
+  case KILL => apply processKill_keeps_oper
+  case REHASH => apply unsupported_keeps_oper
+  case RESTART => apply unsupported_keeps_oper
+  case SQUIT => apply processSquit_keeps_oper
+  case AWAY => apply processAway_keeps_oper
+  case USERHOST => apply processUserhost_keeps_oper
+  case WALLOPS => apply processWallops_keeps_oper
+  case ISON => apply processIson_keeps_oper
+  case DIE => apply processDie_keeps_oper
+end keepsOper
+
+/-- the commands through which a connection registers -/
+def isRegCmd : Command → Bool
+  | .CAP .. | .PASS .. | .NICK .. | .USER .. => true
+  | _ => false
+
+theorem noRiseAt_of_lookup_eq {w w' : World} {n : Str} (h : Map.lookup n w'.users = Map.lookup n w.users) :
+    (operOf w' n = true → operOf w n = true) ∧ (localOperOf w' n = true → localOperOf w n = true) := by
+  unfold operOf localOperOf; rw [h]; exact ⟨id, id⟩
+
+theorem noRiseAt_of_lookup_none {w w' : World} {n : Str} (h : Map.lookup n w'.users = none) :
+    (operOf w' n = true → operOf w n = true) ∧ (localOperOf w' n = true → localOperOf w n = true) := by
+  unfold operOf localOperOf; rw [h]; simp
+
+theorem RegEffect.lookup {cfg : Cfg} {c : Nat} {w w' : World} (h : RegEffect cfg c w w') (n : Str) :
+    Map.lookup n w'.users = Map.lookup n w.users ∨
+    (Map.lookup n w.users = none ∧ ∃ u, Map.lookup n w'.users = some u ∧ u.owner = c ∧
+      u.modes.oper = cfg.defaultUserModes.oper ∧ u.modes.localOper = cfg.defaultUserModes.localOper) := by
+  rcases h with h | ⟨nick, u, hl, hus, h1, h2, h3⟩
+  · left; rw [h]
+  · by_cases hn : nick = n
+    · subst hn
+      right
+      exact ⟨hl, u, by rw [hus]; simp, h1, h2, h3⟩
+    · left; rw [hus, Map.lookup_insert_ne _ _ _ _ hn]
+
+/-- How the `users` entry of an arbitrary nick `n` can change in one dispatched command:
+    (A) neither operator flag of `n` rises; or
+    (B) a granted OPER by `n` itself; or
+    (C) `n` is a new user created by the registration of the acting connection, with the
+        configured default flags; or
+    (D) `n` is the new nick of the acting, registered connection: its entry moved from the
+        old nick (which is gone), modes unchanged. -/
+theorem dispatch_entry_cases (cfg : Cfg) (c : Nat) (msg : Message) (cmd : Command) (x : Ctx) (n : Str) :
+    ((operOf (dispatch cfg c msg cmd x).w n = true → operOf x.w n = true) ∧
+     (localOperOf (dispatch cfg c msg cmd x).w n = true → localOperOf x.w n = true)) ∨
+    (∃ name pw u, cmd = .OPER name pw ∧ (x.conn c).nick = some n ∧ Map.lookup n x.w.users = some u ∧
+       OperGranted cfg (x.conn c).source name pw ∧
+       Map.lookup n (dispatch cfg c msg cmd x).w.users = some { u with modes := { u.modes with oper := true } }) ∨
+    (Map.lookup n x.w.users = none ∧ isRegCmd cmd = true ∧ (x.conn c).authenticated = false ∧
+       ∃ u, Map.lookup n (dispatch cfg c msg cmd x).w.users = some u ∧ u.owner = c ∧
+         u.modes.oper = cfg.defaultUserModes.oper ∧ u.modes.localOper = cfg.defaultUserModes.localOper) ∨
+    (Map.lookup n x.w.users = none ∧ cmd = .NICK n ∧ (x.conn c).authenticated = true ∧
+       ∃ o user src, (x.conn c).nick = some o ∧ Map.lookup o x.w.users = some user ∧
+         Map.lookup n (dispatch cfg c msg cmd x).w.users = some { user with source := src } ∧
+         Map.lookup o (dispatch cfg c msg cmd x).w.users = none) := by
+  by_cases hs : isSpecial cmd = false
+  · exact Or.inl (dispatch_keeps_oper cfg c x msg cmd hs n)
+  · -- registration-type effect, shared by CAP / PASS / USER / NICK
+    have reg : ∀ x' : Ctx, RegEffect cfg c x.w x'.w →
+        (x'.w.users ≠ x.w.users → (x.conn c).authenticated = false) → isRegCmd cmd = true →
+        ((operOf x'.w n = true → operOf x.w n = true) ∧
+         (localOperOf x'.w n = true → localOperOf x.w n = true)) ∨
+        (Map.lookup n x.w.users = none ∧ isRegCmd cmd = true ∧ (x.conn c).authenticated = false ∧
+          ∃ u, Map.lookup n x'.w.users = some u ∧ u.owner = c ∧
+            u.modes.oper = cfg.defaultUserModes.oper ∧ u.modes.localOper = cfg.defaultUserModes.localOper) := by
+      intro x' hr ha hc
+      rcases hr.lookup n with h | ⟨h0, u, h1, h2, h3, h4⟩
+      · exact Or.inl (noRiseAt_of_lookup_eq h)
+      · right
+        refine ⟨h0, hc, ha ?_, u, h1, h2, h3, h4⟩
+        intro e; rw [e, h0] at h1; cases h1
+    cases cmd <;> simp only [isSpecial, reduceCtorEq, not_true_eq_false, not_false_eq_true] at hs
+    case CAP sub caps v =>
+      obtain ⟨h1, h2⟩ := processCap_regEffect cfg c sub caps x
+      rcases reg _ h1 h2 rfl with h | h
+      · exact Or.inl h
+      · exact Or.inr (Or.inr (Or.inl h))
+    case PASS p =>
+      obtain ⟨h1, h2⟩ := processPass_regEffect cfg c p x
+      rcases reg _ h1 h2 rfl with h | h
+      · exact Or.inl h
+      · exact Or.inr (Or.inr (Or.inl h))
+    case USER u _ _ r =>
+      obtain ⟨h1, h2⟩ := processUser_regEffect cfg c u r x
+      rcases reg _ h1 h2 rfl with h | h
+      · exact Or.inl h
+      · exact Or.inr (Or.inr (Or.inl h))
+    case NICK new =>
+      show _ ∨ _ ∨ _ ∨ _
+      have he := processNick_effect cfg c new msg x
+      have hd : dispatch cfg c msg (.NICK new) x = processNick cfg c new msg x := rfl
+      rw [hd]
+      rcases he with ⟨ha, hr⟩ | h | ⟨old, user, src, ha, hold, hu, hl, hus⟩
+      · rcases reg _ hr (fun _ => ha) rfl with h | h
+        · exact Or.inl h
+        · exact Or.inr (Or.inr (Or.inl h))
+      · exact Or.inl (noRiseAt_of_lookup_eq (by rw [h]))
+      · have hne : new ≠ old := by
+          intro e; rw [e, hu] at hl; cases hl
+        by_cases hn : n = new
+        · subst hn
+          right; right; right
+          refine ⟨hl, rfl, ha, old, user, src, hold, hu, ?_, ?_⟩
+          · rw [hus]; simp
+          · rw [hus, Map.lookup_insert_ne _ _ _ _ hne]; simp
+        · left
+          by_cases ho : n = old
+          · subst ho
+            apply noRiseAt_of_lookup_none
+            rw [hus, Map.lookup_insert_ne _ _ _ _ (Ne.symm hn)]; simp
+          · apply noRiseAt_of_lookup_eq
+            rw [hus, Map.lookup_insert_ne _ _ _ _ (Ne.symm hn), Map.lookup_erase_ne _ _ _ (Ne.symm ho)]
+    case OPER name pw =>
+      have hd : dispatch cfg c msg (.OPER name pw) x = processOper cfg c name pw x := rfl
+      rw [hd]
+      by_cases hnk : (x.conn c).nick = some n
+      · cases hu : Map.lookup n x.w.users with
+        | none =>
+          left
+          have : processOper cfg c name pw x = x.panic "oper: users.get_mut(nick).unwrap" ∨
+              processOper cfg c name pw x = x.reply cfg (ErrNoOperHost491 (x.conn c).clientName) := by
+            unfold processOper
+            simp only [hnk]
+            split
+            · left; simp [hu]
+            · right; rfl
+          rcases this with e | e <;> rw [e] <;> exact ⟨id, id⟩
+        | some u =>
+          by_cases hg : OperGranted cfg (x.conn c).source name pw
+          · right; left
+            exact ⟨name, pw, u, rfl, hnk, rfl, hg, (processOper_granted hnk hu hg).2.1⟩
+          · left
+            rw [processOper_refused hnk hu hg]
+            exact ⟨id, id⟩
+      · left
+        exact noRiseAt_of_lookup_eq ((processOper_frame cfg c name pw x).2.2.2.2.2 n hnk)
+
 end Irc.C11
